@@ -83,7 +83,7 @@ def typecheck(hres, workdir, name):
     lib = assemble(hres, d)
     p = subprocess.run(["rustc", "--edition", "2021", "--crate-type", "lib", "--emit=metadata",
                         "-o", os.path.join(d, "out.rmeta"), lib],
-                       stdout=subprocess.PIPE, stderr=subprocess.PIPE, text=True, timeout=120)
+                       stdout=subprocess.PIPE, stderr=subprocess.PIPE, text=True, timeout=120, cwd=d)
     codes = sorted(set(re.findall(r"error\[(E\d+)\]", p.stderr)))
     return p.returncode == 0, codes, p.stderr[-200000:]
 
@@ -125,6 +125,196 @@ def layout_check(hres, exp, workdir, name):
     lib = assemble(hres, d, mod_extra=layout_asserts(hres, exp))
     p = subprocess.run(["rustc", "--edition", "2021", "--crate-type", "lib", "--emit=metadata",
                         "-o", os.path.join(d, "out.rmeta"), lib],
-                       stdout=subprocess.PIPE, stderr=subprocess.PIPE, text=True, timeout=120)
+                       stdout=subprocess.PIPE, stderr=subprocess.PIPE, text=True, timeout=120, cwd=d)
     codes = sorted(set(re.findall(r"error\[(E\d+)\]", p.stderr)))
     return p.returncode == 0, codes, p.stderr[-200000:]
+
+
+# ---- the 32-bit (and msvc 64-bit) layout oracle: struct / enum definitions only, compiled without core ----
+NOCORE_HEAD = """#![feature(no_core, lang_items, rustc_attrs, intrinsics, abi_vectorcall)]
+#![no_core]
+#![allow(dead_code, non_snake_case, non_camel_case_types, unused)]
+#[lang = "pointee_sized"] pub trait PointeeSized {}
+#[lang = "meta_sized"] pub trait MetaSized: PointeeSized {}
+#[lang = "sized"] pub trait Sized: MetaSized {}
+#[lang = "copy"] pub trait Copy {}
+impl Copy for i128 {}
+impl Copy for isize {}
+impl Copy for i64 {}
+impl Copy for usize {}
+impl Copy for u8 {}
+#[lang = "neg"] pub trait Neg { type Output; fn neg(self) -> Self::Output; }
+impl Neg for isize { type Output = isize; fn neg(self) -> isize { loop {} } }
+impl Neg for i64 { type Output = i64; fn neg(self) -> i64 { loop {} } }
+impl Neg for i128 { type Output = i128; fn neg(self) -> i128 { loop {} } }
+#[lang = "sub"] pub trait Sub<Rhs = Self> { type Output; fn sub(self, rhs: Rhs) -> Self::Output; }
+impl Sub for i128 { type Output = i128; fn sub(self, rhs: i128) -> i128 { loop {} } }
+#[rustc_intrinsic] pub const fn size_of<T>() -> usize;
+#[rustc_intrinsic] pub const fn align_of<T>() -> usize;
+#[repr(u8)] pub enum c_void { __A, __B }
+"""
+ITEM_RE = re.compile(r"^(pub(\([^)]*\))? )?(struct|enum) ([A-Za-z_][A-Za-z_0-9]*|r#[A-Za-z_0-9]+)\b")
+TARGETS = {4: "i686-pc-windows-msvc", 8: "x86_64-pc-windows-msvc"}
+
+
+def type_items(text):
+    """the struct and enum definitions of a prettyplease-formatted file (items start in column 0), with their
+    repr attributes only: [(name, text)]"""
+    out, attrs, lines, i = [], [], text.split("\n"), 0
+    while i < len(lines):
+        ln = lines[i]
+        if ln.startswith("#[repr("):
+            attrs.append(ln)
+        m = ITEM_RE.match(ln)
+        if m:
+            body = [ln]
+            if not (ln.rstrip().endswith("}") or ln.rstrip().endswith(";")):
+                i += 1
+                while i < len(lines) and lines[i] != "}":
+                    body.append(lines[i])
+                    i += 1
+                body.append("}")
+            # drop helper attributes rustc cannot know without core (#[default]) and doc lines
+            body = [b for b in body if b.strip() != "#[default]" and not b.strip().startswith("///") and not b.strip().startswith("#[doc")]
+            out.append((m.group(4), "\n".join(attrs + body)))
+            attrs = []
+        elif not ln.startswith("#[") and not ln.startswith("///") and ln.strip():
+            attrs = [] if not ln.startswith(" ") else attrs
+        i += 1
+    return out
+
+
+INT_BITS = {"u8": 8, "i8": 8, "u16": 16, "i16": 16, "u32": 32, "i32": 32, "u64": 64, "i64": 64, "u128": 128, "i128": 128}
+
+
+def nocore_crate(hres, ptr, exp=None):
+    """(source text, [item paths]) -- every emitted struct/enum and the declared extern types, one inline module tree;
+    with the generator's expectation, one constant per enum variant whose declared value fits the base type:
+    its array length is (variant as i128) - declared value, its type says 0 -- a type error (E0308) names the variant
+    whose compiled value is not the declared one"""
+    texts = texts_of(hres)
+    tree = {}
+    items = []
+
+    def node_of(mod):
+        node = tree
+        for p in mod:
+            node = node.setdefault("mods", {}).setdefault(p, {})
+        return node
+    for rel, text in texts.items():
+        mod = tuple(rel[:-3].split("/"))
+        node = node_of(mod)
+        for name, t in type_items(text):
+            t = t.replace("::std::ffi::c_void", "crate::c_void")
+            if ptr == 8:
+                t = ABI_RE.sub('extern "C"', t)
+            node.setdefault("items", []).append((name, t))
+            items.append(mod + (name,))
+            e = ((exp or {}).get("enums") or {}).get("::".join(mod + (name,)))
+            if e and e["base"] in INT_BITS and e["base"] != "u128":
+                bits, signed = INT_BITS[e["base"]], e["base"].startswith("i")
+                lo, hi = (-(1 << (bits - 1)), (1 << (bits - 1)) - 1) if signed else (0, (1 << bits) - 1)
+                for vname, v in e["cases"]:
+                    if v is not None and lo <= v <= hi:
+                        lit = "(-%di128)" % -v if v < 0 else "%di128" % v
+                        node["items"].append(("", "pub const _DISCR_%s__%s: [u8; 0] = [0u8; ((%s::%s as i128) - %s) as usize];"
+                                              % (name, vname, name, vname, lit)))
+    for it in sx.field(hres, "registry") or []:
+        if it[2] == "extern":
+            path = [sx.qtext(s) for s in it[1][1:]]
+            size, align = int(it[4]), int(it[5])
+            node_of(tuple(path[:-1])).setdefault("items", []).append(
+                (path[-1], "#[repr(C, align(%d))] pub struct %s(pub [u8; %d]);" % (max(align, 1), path[-1], size)))
+
+    def render(node, depth):
+        s = ""
+        for name, t in node.get("items", []):
+            s += t + "\n"
+            if not name:
+                continue
+            s += "pub const _LAYOUT_%s: [usize; 2] = [crate::size_of::<%s>(), crate::align_of::<%s>()];\n" % (
+                re.sub(r"\W", "_", name), name, name)
+        for m, child in sorted(node.get("mods", {}).items()):
+            s += "pub mod %s {\n%s}\n" % (m, render(child, depth + 1))
+        return s
+    return NOCORE_HEAD + render(tree, 0), items
+
+
+SIZE_RE = re.compile(r"^print-type-size type: `([^`]+)`: (\d+) bytes, alignment: (\d+) bytes")
+FIELD_RE = re.compile(r"^print-type-size     field `\.([^`]+)`: (\d+) bytes(?:, offset: (\d+) bytes)?")
+PAD_RE = re.compile(r"^print-type-size     padding: (\d+) bytes")
+
+
+def parse_type_sizes(out):
+    """{path: (size, align, {field: offset})} from -Zprint-type-sizes"""
+    res, cur, off = {}, None, 0
+    for ln in out.split("\n"):
+        m = SIZE_RE.match(ln)
+        if m:
+            cur = (m.group(1), int(m.group(2)), int(m.group(3)), {})
+            res[cur[0]] = cur[1:]
+            off = 0
+            continue
+        if cur is None:
+            continue
+        m = PAD_RE.match(ln)
+        if m:
+            off += int(m.group(1))
+            continue
+        m = FIELD_RE.match(ln)
+        if m:
+            if m.group(3) is not None:
+                off = int(m.group(3))
+            cur[3][m.group(1)] = off
+            off += int(m.group(2))
+    return res
+
+
+def nocore_layout(hres, exp, workdir, name, ptr):
+    """rustc (nightly, no core library) for a *-pc-windows-msvc target of the configured pointer width on the emitted
+    struct/enum definitions: (compiled, error codes, stderr tail, mismatches) where mismatches lists
+    ("C02"|"C01", text) for every item whose size/alignment differs from what pyxis resolved, and every declared
+    field whose offset differs from the description"""
+    d = os.path.join(workdir, "nocore_" + name)
+    os.makedirs(d, exist_ok=True)
+    src, items = nocore_crate(hres, ptr, exp)
+    lib = os.path.join(d, "lib.rs")
+    with open(lib, "w") as f:
+        f.write(src)
+    p = subprocess.run(["rustc", "+nightly", "--target", TARGETS[ptr], "--crate-type=lib", "--emit=metadata",
+                        "-Zprint-type-sizes", "-o", os.path.join(d, "out.rmeta"), lib],
+                       stdout=subprocess.PIPE, stderr=subprocess.PIPE, text=True, timeout=120, cwd=d)
+    codes = sorted(set(re.findall(r"error\[(E\d+)\]", p.stderr)))
+    wrong = sorted(set(re.findall(r"_DISCR_(\w+?)__(\w+)", p.stderr)))
+    if p.returncode != 0 and codes == ["E0308"] and wrong:
+        return True, [], "", [("C08", "variant %s::%s does not have its declared value when compiled for pointer width %d" % (a, b, ptr)) for a, b in wrong]
+    if p.returncode != 0:
+        if not codes:
+            codes = sorted(set(re.findall(r"^error: ([^\n]{0,60})", p.stderr, re.M)))[:3]
+        return False, codes, p.stderr[-20000:], []
+    sizes = parse_type_sizes(p.stdout)
+    bad = []
+    for it in sx.field(hres, "registry") or []:
+        if it[2] != "defined":
+            continue
+        path = [sx.qtext(x) for x in it[1][1:]]
+        if len(path) < 2:
+            continue
+        key = "::".join(path)
+        size, align = int(it[4]), int(it[5])
+        got = sizes.get(key)
+        if got is None:
+            bad.append(("C02", "%s: no layout reported by rustc" % key))
+        elif (got[0], got[1]) != (size, align):
+            bad.append(("C02", "size/alignment of %s: rustc %d/%d, resolved %d/%d (pointer width %d)" % (key, got[0], got[1], size, align, ptr)))
+    for key, t in ((exp or {}).get("types") or {}).items():
+        got = sizes.get(key)
+        if got is None:
+            continue
+        for f in t.get("fields", []):
+            fname, off, zero = f[0], f[1], f[5]
+            if zero:
+                continue
+            if got[2].get(fname) != off:
+                bad.append(("C01", "field %s.%s: rustc offset %s, declared %d (pointer width %d)" % (key, fname, got[2].get(fname), off, ptr)))
+    return True, [], "", bad
